@@ -482,6 +482,35 @@ fn run_width_grid(seed: u64, run: u64, agg: &mut Agg) -> Option<ViolationRecord>
 }
 
 // =====================================================================================================
+// bounded-exhaustive histories (enumeration, not seeded search): the run index IS the history, decoded in mixed radix over a
+// tiny alphabet; running indices 0..N covers every history up to the given length exactly once. These arms exist because the
+// quantifiers of C10 / C11 / C18 ask for it; the evidence flags them as enumeration.
+// =====================================================================================================
+fn decode(mut idx: u64, radix: u64, max_len: usize) -> Vec<u64> {
+    // histories are ordered by length: first all of length 1, then length 2, ...
+    let mut len = 1usize; let mut block = radix;
+    while len < max_len && idx >= block { idx -= block; len += 1; block *= radix; }
+    let idx = idx % block;
+    let mut v = vec![0u64; len]; let mut x = idx;
+    for k in (0..len).rev() { v[k] = x % radix; x /= radix; }
+    v
+}
+pub fn enum_space(radix: u64, max_len: usize) -> u64 { let mut t = 0u64; let mut b = 1u64; for _ in 0..max_len { b *= radix; t += b; } t }
+fn fringe_sym(x: u64) -> FringeOp { match x { 16 => FringeOp::Pop, 17 => FringeOp::Clear, _ => FringeOp::Push { state: (x & 1) as u8, depth: (x >> 1 & 1) as usize, value: (x >> 2 & 1) as isize, ub: (x >> 3 & 1) as isize } } }
+fn cache_sym(x: u64) -> CacheOp { match x { 0..=15 => CacheOp::Update { state: (x & 1) as u8, depth: (x >> 1 & 1) as usize, value: (x >> 2 & 1) as isize, explored: x >> 3 & 1 == 1 },
+    16..=19 => CacheOp::Get { state: (x & 1) as u8, depth: (x >> 1 & 1) as usize }, 20 | 21 => CacheOp::ClearLayer { depth: (x & 1) as usize }, _ => CacheOp::Clear } }
+fn dom_sym(x: u64) -> DomOp { match x { 8 => DomOp::ClearLayer { depth: 0 }, _ => DomOp::Check { state: DState { key: 0, coords: vec![(x & 1) as isize, (x >> 1 & 1) as isize] }, depth: 0, value: (x >> 2 & 1) as isize } } }
+fn run_enum_arm(arm: &str, run: u64, agg: &mut Agg) -> Option<ViolationRecord> {
+    let max_len: usize = std::env::var("VERIF_ENUM_LEN").ok().and_then(|s| s.parse().ok()).unwrap_or(4);
+    match arm {
+        "fringe-enum" => { let n = enum_space(18, max_len); let dedup = run / n % 2 == 1; let ops: Vec<FringeOp> = decode(run % n, 18, max_len).into_iter().map(fringe_sym).collect(); run_fringe_history(arm, 0, run, agg, Some((dedup, &ops))) }
+        "store-enum" => { let n = enum_space(23, max_len); let ops: Vec<CacheOp> = decode(run % n, 23, max_len).into_iter().map(cache_sym).collect(); run_store_history(arm, 0, run, agg, Some(&ops)) }
+        "dom-enum" => { let n = enum_space(9, max_len + 2); let use_value = run / n % 2 == 1; let ops: Vec<DomOp> = decode(run % n, 9, max_len + 2).into_iter().map(dom_sym).collect(); run_dom_history(arm, 0, run, agg, Some((use_value, 0, &ops))) }
+        _ => None,
+    }
+}
+
+// =====================================================================================================
 pub fn run_history_arm(arm: &str, seed: u64, run: u64, agg: &mut Agg) -> Option<Option<ViolationRecord>> {
     Some(match arm {
         "dd-history" | "dd-history-depthfree" | "dd-history-longarc" | "dd-history-narrow" => run_dd_history(arm, seed, run, agg, None),
@@ -489,6 +518,7 @@ pub fn run_history_arm(arm: &str, seed: u64, run: u64, agg: &mut Agg) -> Option<
         "store-history" => run_store_history(arm, seed, run, agg, None),
         "dom-history" => run_dom_history(arm, seed, run, agg, None),
         "width-grid" => run_width_grid(seed, run, agg),
+        "fringe-enum" | "store-enum" | "dom-enum" => run_enum_arm(arm, run, agg),
         _ => return None,
     })
 }
